@@ -450,6 +450,6 @@ def _run_shard(spec) -> Acc:
 
 def plan(tier, seed):
     q = tier == "quick"
-    return ([{"part": "interleave", "shard": i, "n": 150 if q else 4000} for i in range(12)]
+    return ([{"part": "interleave", "shard": i, "n": 100 if q else 3000} for i in range(12)]
             + [{"part": "threads", "shard": 50 + i, "n": 10 if q else 150, "reps": 20 if q else 100} for i in range(2)]
             + [{"part": "hashseed", "shard": 70 + i, "n": 2 if q else 20} for i in range(2)])
